@@ -1107,9 +1107,14 @@ pub(crate) fn eval_query(ctx: &Context, expr: &Query) -> Result<QueryReply, Quer
                 .iter()
                 .map(|(a, b)| (a.clone(), Rc::new(b.clone())))
                 .collect::<BTreeMap<_, _>>();
-            let results = commands::factorize(&val, &quantities);
-            let mut results = results.into_sorted_vec();
-            results.dedup();
+            // The heap is ordered by score only, so equal products are
+            // not necessarily next to each other.
+            let mut results: Vec<commands::Factors> = vec![];
+            for item in commands::factorize(&val, &quantities).into_sorted_vec() {
+                if !results.contains(&item) {
+                    results.push(item);
+                }
+            }
             let results = results
                 .into_iter()
                 .map(|commands::Factors(_score, names)| {
